@@ -122,6 +122,11 @@ pub fn run(op: &str, e: &Value, ctx: &mut Ctx) -> Result<Value, String> {
                     let sp = RistrettoPoint::mul_base(&sk); undefine(&sp, 160);
                     let (r, k) = window(|| sp.compress());
                     n = k; define(&r, 32); out = r.to_bytes().to_vec(); std::mem::forget(sp); }
+                "ris.batch_compress_secret" => {
+                    // the batch encoder on secret points (sk = 0: the identity, whose e*f*g*h is zero inside the batch inversion)
+                    let ps = [RistrettoPoint::mul_base(&sk), RistrettoPoint::mul_base(&sk2), pub_ris]; undefine(&ps, 320);
+                    let (r, k) = window(|| RistrettoPoint::double_and_compress_batch(ps.iter()));
+                    n = k; out = r.iter().flat_map(|c| c.to_bytes().to_vec()).collect(); define(&out[0], out.len()); std::mem::forget(ps); }
                 "ed.compress_secret" => {
                     let sp = EdwardsPoint::mul_base(&sk); undefine(&sp, 160);
                     let (r, k) = window(|| (sp.compress(), sp.to_montgomery()));
